@@ -86,10 +86,12 @@ class Campaign:
         return self
 
 
-def write_case(path, module, phase, choices, key="", detail="", case=""):
+def write_case(path, module, phase, choices, key="", detail="", case="", kase=""):
     with open(path, "w") as f:
-        f.write("module %s\nphase %d\nchoices %s\n# key: %s\n# detail: %s\n# case: %s\n" %
-                (module, phase, " ".join(str(c) for c in choices), key, detail, case))
+        f.write("module %s\nphase %d\nchoices %s\n" % (module, phase, " ".join(str(c) for c in choices)))
+        if kase:
+            f.write("kase %s\n" % kase)
+        f.write("# key: %s\n# detail: %s\n# case: %s\n" % (key, detail, case))
 
 
 def replay_case(harness, module, path, libcfg="plain"):
@@ -170,7 +172,7 @@ def triage(prop, campaigns, dev=False, max_new=int(os.environ.get('VERIF_MAX_NEW
         safe = re.sub(r"[^A-Za-z0-9_.-]+", "_", key)[:100]
         raw = os.path.join(REPLAY_DIR, prop, "%s-%s.raw.case" % (safe, h))
         out = os.path.join(REPLAY_DIR, prop, "%s-%s.case" % (safe, h))
-        write_case(raw, c.module, v.get("phase", 1), v["choices"], key, v.get("detail", ""), v.get("case", ""))
+        write_case(raw, c.module, v.get("phase", 1), v["choices"], key, v.get("detail", ""), v.get("case", ""), v.get("kase", ""))
         if dev or not shrink_case(c.harness, c.module, raw, out, c.libcfg):
             shutil.copy(raw, out)
         # replay 3x
